@@ -187,7 +187,8 @@ func c06Linear(ctx *Ctx) {
 		}
 		if v < 0 || v > 255 {
 			ctx.Violation("linear-steps:outside-0..255:"+region, fmt.Sprintf("%v -> %d", desc, v), desc)
-		} else if math.Abs(float64(v)-want) > 0.5+1e-3 {
+		} else if math.Abs(float64(v)-want) >= 1+1e-3 {
+			// (rounding mode is not part of the statement: nearest and truncation both pass)
 			ctx.Violation("linear-steps:not-interpolation:"+region, fmt.Sprintf("%v -> %d want %.4f", desc, v, want), desc)
 		}
 	}
